@@ -147,6 +147,9 @@ pub enum GoalSampler {
     /// harness-owned stream; like `Harness`, but the draw keeps the target's rotational
     /// components bit for bit (a goal region of a pure-translation task)
     Translate,
+    /// a stateful sampler: the i-th `sample_goal` call of the scenario returns `cycle[i mod n]`
+    /// (a goal that hands out a fixed list of goal configurations in turn)
+    Cycle,
 }
 
 #[derive(Serialize, Deserialize, Clone, Debug, PartialEq)]
@@ -158,6 +161,9 @@ pub struct GoalSpec {
     /// the goal predicate measures with the harness's own metric (see `WorldSpec`)
     #[serde(default)]
     pub harness_metric: bool,
+    /// the list the `Cycle` sampler hands out in turn (every entry inside the goal region)
+    #[serde(default)]
+    pub cycle: Vec<St>,
     /// additional requirement on one component (goal predicates that look at a component the
     /// space metric ignores); goal samples satisfy it
     #[serde(default, skip_serializing_if = "Option::is_none")]
